@@ -161,7 +161,7 @@ def receiver(outdir, form=None):
 def run(run):
     from vf.rt import corpus as C
 
-    names = [n for n in C.PROGRAMS if "disk" not in C.PROGRAMS[n].tags]
+    names = [n for n in C.PROGRAMS if "disk" not in C.PROGRAMS[n].tags and (C.PROGRAMS[n].only is None or "C16" in C.PROGRAMS[n].only)]
     if run.tier == "quick":
         names = names[::2] + [n for n in names if n.startswith(("set_index", "sort_", "repartition", "merge_", "shuffle"))]
         names = sorted(set(names))
